@@ -489,6 +489,21 @@ class Duration(timedelta):
 
         return NotImplemented
 
+    def __reduce__(self) -> tuple[type[Self], tuple[int, ...]]:
+        # timedelta's own reduce only knows days, seconds and microseconds:
+        # years and months would come back as 365 and 30 days.
+        return self.__class__, (
+            self._weeks * 7 + self._remaining_days,
+            self._seconds,
+            self._microseconds,
+            0,
+            0,
+            0,
+            0,
+            self._years,
+            self._months,
+        )
+
     def __deepcopy__(self, _: dict[int, Self]) -> Self:
         return self.__class__(
             days=self.remaining_days,
